@@ -8,7 +8,7 @@ from ..cfg import cfg_of
 from ..guards import Env, walk, collect_atoms, valuations, describe_env
 from ..report import Report
 from ..rules.freshname import check_fresh_names
-from ..util import callee_last, enclosing_stmt, depends_on, inline_temps
+from ..util import get_arg, callee_last, enclosing_stmt, depends_on, inline_temps
 from ..normalize import inlined_view
 
 CJ = 'fggs.conjunction'
@@ -273,10 +273,19 @@ def shape_rules(rep: Report, prog: Program) -> None:
             adds = lambda k: lcfg.nodes[k].kind == 'stmt' and any(isinstance(x, ast.Call) and callee_last(x) == 'add_edge' and x.args and norm(x.args[0]) == tv for x in ast.walk(lcfg.nodes[k].stmt))
             if lcfg.all_paths_pass(be, adds, targets={hdr, lcfg.exit})[0]:
                 ok = True
+                # the edges are iterated as a multiset: equal edges of the two rules (same id, label, attachment) are two factors
+                src_nodes = [l.iter] + [defs[x] for x in srcs if x in defs]
+                collapsing = [x for e in src_nodes for x in ast.walk(e)
+                              if isinstance(x, (ast.Set, ast.SetComp, ast.DictComp)) or isinstance(x, ast.Call) and callee_last(x) in ('set', 'frozenset', 'fromkeys', 'OrderedDict', 'dict', 'unique')]
+                rep.ob(rule, f.fq(), f"for {tv} in {norm(l.iter)[:60]}: every terminal edge counts once per rule", f.loc(l), not collapsing,
+                       'the terminal edges of the two rules are concatenated' if not collapsing else
+                       f"`{norm(collapsing[0])[:60]}` collapses equal edges: a terminal edge the two rules share contributes one factor instead of two")
                 # rebinding of the loop variable inside the loop keeps label and attachment
                 for a in [x for x in ast.walk(l) if isinstance(x, ast.Assign) and any(norm(t) == tv for t in x.targets)]:
                     v = a.value
-                    same = isinstance(v, ast.Call) and callee_last(v) == 'Edge' and len(v.args) >= 2 and norm(v.args[0]) == f"{tv}.label" and norm(v.args[1]) == f"{tv}.nodes"
+                    lab_a = get_arg(v, 0, 'label') if isinstance(v, ast.Call) else None
+                    nodes_a = get_arg(v, 1, 'nodes') if isinstance(v, ast.Call) else None
+                    same = isinstance(v, ast.Call) and callee_last(v) == 'Edge' and lab_a is not None and nodes_a is not None and norm(lab_a) == f"{tv}.label" and norm(nodes_a) == f"{tv}.nodes"
                     rep.ob(rule, f.fq(), norm(a)[:90], f.loc(a), same, 'a re-created edge keeps label and attachment' if same else 'the edge that is added differs from the rule\'s edge in label or attachment')
                 # an id already used in the new right-hand side must not make add_edge fail
                 guarded = any(isinstance(x, ast.Call) and callee_last(x) == 'has_edge_id' for x in ast.walk(l)) or \
